@@ -37,6 +37,17 @@ def setup(tier):
     contracts.import_all_propka()
 
 
+def replay_is_faithful(runT, moved, name, counts):
+    """Does the moved run reproduce itself when its own hydrogens are supplied with -k?"""
+    from .. import motion, obs, pdbio, sources
+    withh, n, orphans = sources.with_hydrogens(moved, runT.rec["confs"][name]["hydrogens"])
+    rk = obs.run_single(pdbio.dump(withh), ["-k"])
+    counts["pipeline_runs"] = counts.get("pipeline_runs", 0) + 1
+    if rk.exc:
+        return False
+    return motion.max_pka_difference(rk, runT, lambda k: k) <= 1e-7
+
+
 def run_case(case, tier):
     from .. import motion, obs, pdbio, sources, util
     rng = random.Random(case["seed"])
@@ -107,6 +118,11 @@ def run_case(case, tier):
                 # a supplied hydrogen within 1.5 A of a second heavy atom is bonded to both by the
                 # distance rule: the -k re-run is not a faithful replay, nothing can be concluded
                 counts["second_stage_not_judged"] = counts.get("second_stage_not_judged", 0) + 1
+            elif d2 > 1e-7 and not replay_is_faithful(runT, moved, name, counts):
+                # feeding hydrogens back with -k does not even reproduce a run in its own frame
+                # (that is C07's subject): the instrument of this stage is broken, no verdict
+                counts["second_stage_not_judged"] = counts.get("second_stage_not_judged", 0) + 1
+                classes.append("replay-instrument-unfaithful")
             elif d2 > 1e-7:
                 viol.append({"cls": "pose-changes-pka", "msg": "pKa/determinants differ by %.4g between frames and the difference is not "
                              "reproduced by the moved run's hydrogens in the original frame (residual %.4g)" % (dmax, d2)})
